@@ -597,3 +597,70 @@ func identityParse(c *Ctx, id string) {
 		c.Undecided(id, "identity-floor", 0, "no identity parse step found")
 	}
 }
+
+// descriptorNames (C16): a gauge is read by its name. Collect pairs each descriptor *field* with the value it reports
+// (C16.R1); this rule closes the other half: the constructor gives the field named X the descriptor whose metric name
+// says X. The name is read from the string constants handed to BuildFQName (directly or through a helper); its words,
+// apart from the generic suffixes current / total / ms, must spell the field's name (trailing Desc/Metric/Gauge/Counter
+// in the field name ignored). Two descriptors swapped in the constructor report each other's values under a wrong name.
+func descriptorNames(c *Ctx, id string) {
+	w := c.W
+	ctor := w.Func("metric", "NewMetricCollector")
+	c.need(ctor != nil, id, "metric.NewMetricCollector")
+	c.see(ctor)
+	word := regexp.MustCompile(`const\("([a-z][a-z0-9_]*)"\)`)
+	n := 0
+	seenName := map[string]string{}
+	allInstrs(ctor, func(in ssa.Instruction) {
+		st, ok := in.(*ssa.Store)
+		if !ok {
+			return
+		}
+		f := fieldOfAddr(st.Addr)
+		if f == nil || !strings.HasSuffix(f.Type().String(), "prometheus.Desc") {
+			return
+		}
+		o := w.Origin(st.Val)
+		var parts []string
+		for _, m := range word.FindAllStringSubmatch(o, -1) {
+			parts = append(parts, m[1])
+		}
+		// the namespace constant comes first (helpers.Name); the metric's own words are the next two constants
+		if len(parts) >= 3 {
+			parts = parts[1:3]
+		} else if len(parts) == 2 {
+			// (a helper that adds the namespace itself)
+		} else {
+			c.Undecided(id, "descriptor:"+f.Name(), in.Pos(), "cannot read the metric name of %s from %s", f.Name(), o)
+			return
+		}
+		n++
+		full := strings.Join(parts, "_")
+		field := strings.ToLower(f.Name())
+		for _, suf := range []string{"desc", "metric", "gauge", "counter"} {
+			if strings.HasSuffix(field, suf) && len(field) > len(suf) {
+				field = strings.TrimSuffix(field, suf)
+			}
+		}
+		total, okW := 0, true
+		for _, t := range strings.Split(full, "_") {
+			if (t == "current" || t == "total" || t == "ms") && !strings.Contains(field, t) {
+				continue
+			}
+			if !strings.Contains(field, t) {
+				okW = false
+			}
+			total += len(t)
+		}
+		construct := "descriptor:" + f.Name()
+		if prev, dup := seenName[full]; dup {
+			c.Fail(id, construct, in.Pos(), "the metric name %s is given to two descriptors (%s and %s)", full, prev, f.Name())
+			return
+		}
+		seenName[full] = f.Name()
+		c.Check(okW && total == len(field), id, construct, in.Pos(), f.Name()+" ← metric "+full, fmt.Sprintf("descriptor field %s is given the metric name %s: the value Collect reports through %s appears under another quantity's name", f.Name(), full, f.Name()))
+	})
+	if n < 15 {
+		c.Undecided(id, "descriptor-floor", 0, "only %d descriptors read (25 on the reference tree; floor 15)", n)
+	}
+}
